@@ -60,7 +60,7 @@ def validateBasic : List Sig → List String → Err
     else validateBasic rest (s.id :: seen)
 
 def powerIn (l : List Sig) (id : String) : Int :=
-  (l.filter (fun s => s.id = id)).foldl (fun a s => a + s.power) 0
+  ((l.filter (fun s => s.id = id)).map (·.power)).sum
 
 /-- int64 entry of `signalIDToPowerDiff` for one id: `-= prev` for every previous, `+= new` for every new. -/
 def diff64 (old new : List Sig) (id : String) : Int :=
@@ -82,26 +82,36 @@ def applyDiffs (old new : List Sig) : List String → (String → Int) → Optio
     if v < 0 then none
     else applyDiffs old new rest (fun x => if x = id then v else t x)
 
+/-- the power `LockVoterPower` hands to restake -/
+def lockOf (signals : List Sig) : Int := Feeds.lockSum (signals.map (·.power))
+
+/-- Everything that can reject a vote before the totals are touched:
+    ValidateBasic, the signal-count limit, and restake.SetLockedPower
+    (`!power.IsUint64()` then `totalPower.LT(power)`). -/
+def preErr (p : Params) (signals : List Sig) (totalPower : Int) : Err :=
+  match validateBasic signals [] with
+  | .ok =>
+    if signals.length > p.maxCurrentFeeds then .tooMany
+    else if lockOf signals < 0 ∨ lockOf signals ≥ 18446744073709551616 then .invalidPower
+    else if totalPower < lockOf signals then .powerNotEnough
+    else .ok
+  | e => e
+
+def commit (st : State) (voter : Nat) (signals : List Sig) (t : String → Int) : State :=
+  { voters := if voter ∈ st.voters then st.voters else st.voters ++ [voter]
+    votes := fun v => if v = voter then signals else st.votes v
+    sigs := (touched (st.votes voter) signals).foldl insertNew st.sigs
+    totals := t
+    locks := fun v => if v = voter then lockOf signals else st.locks v }
+
 /-- The msg server's `Vote` (after ValidateBasic), wrapped in the transaction's atomicity:
     on error the pre-state is returned. `totalPower` is the voter's restake total power. -/
 def vote (p : Params) (st : State) (voter : Nat) (signals : List Sig) (totalPower : Int) : State × Err :=
-  match validateBasic signals [] with
+  match preErr p signals totalPower with
   | .ok =>
-    if signals.length > p.maxCurrentFeeds then (st, .tooMany) else
-    let s := Feeds.lockSum (signals.map (·.power))
-    -- restake.SetLockedPower: `!power.IsUint64()` then `totalPower.LT(power)`
-    if s < 0 ∨ s ≥ 18446744073709551616 then (st, .invalidPower) else
-    if totalPower < s then (st, .powerNotEnough) else
-    let old := st.votes voter
-    let ids := touched old signals
-    match applyDiffs old signals ids st.totals with
+    match applyDiffs (st.votes voter) signals (touched (st.votes voter) signals) st.totals with
     | none => (st, .powerNegative)
-    | some t =>
-      ({ voters := if voter ∈ st.voters then st.voters else st.voters ++ [voter]
-         votes := fun v => if v = voter then signals else st.votes v
-         sigs := ids.foldl insertNew st.sigs
-         totals := t
-         locks := fun v => if v = voter then s else st.locks v }, .ok)
+    | some t => (commit st voter signals t, .ok)
   | e => (st, e)
 
 /-- Unstake of `amount` (single allowed denom, only the feeds vault holds a lock in this model):
@@ -135,5 +145,23 @@ def newCurrentFeeds (p : Params) (st : State) : List FeedOut :=
   ((byPowerDesc st).take p.maxCurrentFeeds).filterMap (fun e =>
     let iv := Feeds.calculateInterval e.1 p.powerStep p.minInterval p.maxInterval
     if iv > 0 then some { id := e.2, power := e.1, interval := iv } else none)
+
+end BandVerif.Signal
+
+namespace BandVerif.Signal
+
+/-- integer sum of all standing votes for a signal -/
+def sumVotes (voters : List Nat) (votes : Nat → List Sig) (id : String) : Int :=
+  (voters.map (fun v => powerIn (votes v) id)).sum
+
+/-- the state invariant of C07 -/
+def Inv (st : State) : Prop :=
+  st.voters.Nodup ∧ (∀ v, v ∉ st.voters → st.votes v = []) ∧
+  (∀ id, st.totals id = sumVotes st.voters st.votes id) ∧
+  (∀ v, ∀ s ∈ st.votes v, 0 < s.power)
+
+/-- run a history of votes (voter, signals, total power at that moment) -/
+def runVotes (p : Params) (st : State) (ops : List (Nat × List Sig × Int)) : State :=
+  ops.foldl (fun st o => (vote p st o.1 o.2.1 o.2.2).1) st
 
 end BandVerif.Signal
